@@ -284,7 +284,7 @@ pub async fn wait_tasks(baseline: usize) {
         // observed to keep freshly spawned tasks from being picked up on larger runtimes
         spins += 1;
         tokio::time::sleep(Duration::from_micros(if spins < 20 { 30 } else { 150 })).await;
-        if start.elapsed() > Duration::from_secs(30) {
+        if start.elapsed() > Duration::from_secs(120) {
             crate::vcore::machinery_error(&format!(
                 "background tasks did not quiesce: alive={} baseline={}",
                 alive_tasks(),
